@@ -105,10 +105,20 @@ def gen_times(r, N, mode):
         inc = 4 * g * r.randint(1, 60)
         for _ in range(N - 1):
             T.append(T[-1] + (inc if regular else 4 * g * r.randint(1, 60)))
-        T = [F * t for t in T]
+        xs = Fr(1)
+        if r.random() < 0.1:
+            xs = Fr(2) ** r.choice([-600, -900, 500, 800])       # extreme but exactly representable time scales
+        if N <= 12 and N >= 2 and r.random() < 0.15:
+            # repeated times (an explicit sample() right after an automatic record gives two records at one time): the
+            # time axis is then non-decreasing only; every policy is still defined by its wording
+            for _ in range(r.randint(1, 2)):
+                k = r.randrange(1, N)
+                T[k] = T[k - 1]
+            T.sort()
+        T = [F * t * xs for t in T]
         for t in T:
             assert representable(t)
-        return {"mode": mode, "unit": u, "T": T, "lattice": F * g, "partner": partner}
+        return {"mode": mode, "unit": u, "T": T, "lattice": F * g * xs, "partner": partner}
     scale = 10 ** r.uniform(-3, 3)
     t0 = r.choice([0.0, r.uniform(0, 50) * scale, -r.uniform(0, 50) * scale])
     fl = [t0]
@@ -821,7 +831,7 @@ def main():
                    "(3) trajectories simulated with the Euler engine, same monitors against trajectory.data. "
                    "A case is a shape; non-trivial when at least two of the three extents are >= 2."
                    % (hi, "random larger shapes (up to 12 x 8 x 60); " if thorough else ""),
-              assumptions=["sample times strictly increasing and finite, nsamples >= 1",
+              assumptions=["sample times non-decreasing (repeats allowed in short built trajectories) and finite, nsamples >= 1",
                            "a query given in another unit is judged near a decision boundary (1e-9 relative) only when its "
                            "conversion is exact (rational value representable and reproduced by UnitValue.convert); "
                            "'closest' is judged at exact ties only on dyadic lattices where the distances are exact",
